@@ -177,7 +177,7 @@ def run(ctx):
         ctx.sample({"program": " ".join(S.render(f) for f in with_count(v["forms"], 3, big))})
     ctx.assumptions += ["stack address of a local in a host procedure and the harness's per-thread counting allocator are the space measures",
                         "slacks: 1 KiB / 4 KiB between iterations with equal abstract continuation at small N; 16 KiB stack and 64 KiB heap spread at large N (>= 100x below one frame per iteration)"]
-    return ctx.finish(rule="every composition of 15 tail contexts to depth 2 x 6 loop shapes x direct/apply call; MC: non-terminating abstract loops have finite graphs with bounded continuation; "
+    return ctx.finish(rule="every composition of 15 tail contexts to depth 2 x 8 loop shapes (incl. a closure built per turn, and a closure over the caller's frame passed as an operand of the tail call) x direct/apply call; MC: non-terminating abstract loops have finite graphs with bounded continuation; "
                            "replay at N=0,1,3 with R-space at each probe; N=1e5 (quick) on all depth<=1 members and a seeded sample of depth-2 members; non-trivial = distinct program")
 
 
